@@ -22,14 +22,22 @@ type pdTableSpec struct {
 	mapSuffix  string   // the map expression ends with this (".responses"); "" = through the response manager's methods
 	insertFunc string   // Type.Method holding the insert
 	lookups    []string // Type.Method of every lookup site
+	file       string   // the source file the table lives in
+	mapField   string   // the field name of the map: every read `<x>.<mapField>[k]` in `file` is a read site
+	sendPats   []string // how the issuing function puts the request on the wire: prefix of a call, or "<-" + channel text of a send statement
 }
 
 var pdTableSpecs = []pdTableSpec{
-	{"sse_client.responses", ".responses", "sseClientTransport.sendRequestInternal", []string{"sseClientTransport.handleResponse"}},
-	{"sse_server.responses", ".responses", "SSEServer.SendRequest", []string{"SSEServer.handleResponseMessage", "SSEServer.handleRootsListResponse"}},
-	{"stdio_client.pendingRequests", ".pendingRequests", "stdioClientTransport.sendRequest", []string{"stdioClientTransport.handleResponse", "stdioClientTransport.handleErrorResponse"}},
-	{"stdio_server.responses", ".responses", "StdioServer.SendRequest", []string{"stdioServerInternal.HandleResponse"}},
-	{"streamable_server.pendingRequests", "", "httpServerHandler.SendRequest", []string{"httpServerHandler.handlePostResponse"}},
+	{"sse_client.responses", ".responses", "sseClientTransport.sendRequestInternal", []string{"sseClientTransport.handleResponse"},
+		"sse_client.go", "responses", []string{"t.httpReqHandler.Handle(", "t.httpClient.Do("}},
+	{"sse_server.responses", ".responses", "SSEServer.SendRequest", []string{"SSEServer.handleResponseMessage", "SSEServer.handleRootsListResponse"},
+		"sse_server.go", "responses", []string{"<-session.eventQueue"}},
+	{"stdio_client.pendingRequests", ".pendingRequests", "stdioClientTransport.sendRequest", []string{"stdioClientTransport.handleResponse", "stdioClientTransport.handleErrorResponse"},
+		"transport_stdio.go", "pendingRequests", []string{"t.encoder.Encode("}},
+	{"stdio_server.responses", ".responses", "StdioServer.SendRequest", []string{"stdioServerInternal.HandleResponse"},
+		"stdio_server.go", "responses", []string{"<-session.MessageChannel()"}},
+	{"streamable_server.pendingRequests", "", "httpServerHandler.SendRequest", []string{"httpServerHandler.handlePostResponse"},
+		"streamable_server.go", "pendingRequests", []string{"conn.sseResponder.sendRequest("}},
 }
 
 var (
@@ -46,6 +54,9 @@ type pdTableFact struct {
 	lookupFuncs    []string
 	lookupKinds    []string
 	usesSession    bool
+	insertFirst    bool     // the insert precedes the statement that puts the request on the wire, in the issuing function
+	readSites      []string // every function of the table's file that reads the map (`m[k]` not as an assignment target)
+	readsCompare   bool     // every one of them compares the posting session
 }
 
 // pdDefOf finds the expression a local identifier is defined by (`id := expr`, `id, ok := expr`) in a function body.
@@ -216,21 +227,37 @@ func pdAnalyseTable(p *pkgSrc, spec pdTableSpec) pdTableFact {
 	f := pdTableFact{name: spec.name, insertFunc: spec.insertFunc, insertKind: "other"}
 	if fd, _ := p.funcDecl(spec.insertFunc); fd != nil && fd.Body != nil {
 		var keyExpr ast.Expr
+		var insertPos, sendPos token.Pos
 		ast.Inspect(fd.Body, func(n ast.Node) bool {
 			switch x := n.(type) {
 			case *ast.AssignStmt:
 				if spec.mapSuffix != "" && len(x.Lhs) == 1 && x.Tok == token.ASSIGN {
 					if ix, ok := x.Lhs[0].(*ast.IndexExpr); ok && strings.HasSuffix(p.text(ix.X), spec.mapSuffix) && keyExpr == nil {
 						keyExpr = ix.Index
+						insertPos = x.Pos()
 					}
 				}
 			case *ast.CallExpr:
 				if spec.mapSuffix == "" && strings.HasSuffix(p.text(x.Fun), ".RegisterRequest") && len(x.Args) >= 1 && keyExpr == nil {
 					keyExpr = x.Args[0]
+					insertPos = x.Pos()
+				}
+				for _, pat := range spec.sendPats {
+					if !strings.HasPrefix(pat, "<-") && strings.HasPrefix(pdSquash(p.text(x)), pat) && sendPos == 0 {
+						sendPos = x.Pos()
+					}
+				}
+			case *ast.SendStmt:
+				for _, pat := range spec.sendPats {
+					if strings.HasPrefix(pat, "<-") && pdSquash(p.text(x.Chan)) == pat[2:] && sendPos == 0 {
+						sendPos = x.Pos()
+					}
 				}
 			}
 			return true
 		})
+		// unknown (no insert or no send recognised) => non-compliant
+		f.insertFirst = insertPos != 0 && sendPos != 0 && insertPos < sendPos
 		if keyExpr != nil {
 			d := pdResolve(p, fd.Body, keyExpr)
 			f.insertKey = pdSquash(p.text(d))
@@ -304,7 +331,45 @@ func pdAnalyseTable(p *pkgSrc, spec pdTableSpec) pdTableFact {
 			}
 		}
 	}
-	f.usesSession = sites > 0 && sites == sitesComparing // every lookup site takes the posting session into account
+	// every read of the map, anywhere in the table's file: a function that reads the table and does not itself compare the
+	// posting session is a lookup path on which a foreign answer can be accepted
+	f.readsCompare = true
+	if file := p.files[spec.file]; file != nil {
+		for _, d := range file.Decls {
+			fd, ok := d.(*ast.FuncDecl)
+			if !ok || fd.Body == nil {
+				continue
+			}
+			targets := map[ast.Expr]bool{}
+			reads := 0
+			ast.Inspect(fd.Body, func(n ast.Node) bool {
+				switch x := n.(type) {
+				case *ast.AssignStmt:
+					if x.Tok == token.ASSIGN {
+						for _, l := range x.Lhs {
+							targets[l] = true
+						}
+					}
+				case *ast.IndexExpr:
+					if !targets[x] && strings.HasSuffix(p.text(x.X), "."+spec.mapField) {
+						reads++
+					}
+				}
+				return true
+			})
+			if reads > 0 {
+				f.readSites = append(f.readSites, funcName(fd))
+				if !pdSessionCompared(p, fd.Body, nil) {
+					f.readsCompare = false
+				}
+			}
+		}
+	}
+	sort.Strings(f.readSites)
+	if len(f.readSites) == 0 {
+		f.readsCompare = false
+	}
+	f.usesSession = sites > 0 && sites == sitesComparing && f.readsCompare // every lookup site takes the posting session into account
 	return f
 }
 
@@ -419,7 +484,9 @@ func genPending(root *pkgSrc) {
 	b.WriteString("structure PdTable where\n  name : List Nat\n  insertFunc : List Nat\n  insertKey : List Nat          -- source text of the key expression at the insert\n" +
 		"  insertKind : List Nat         -- idKey | sprintfV | int64Assert | uint64OfInt64 | other\n  deferredDelete : Bool         -- the insert has its matching deferred delete\n" +
 		"  lookupFuncs : List (List Nat)\n  lookupKinds : List (List Nat) -- idKey | sprintfV | int64OfFloat64 | parseRequestID | other, one per lookup site\n" +
-		"  lookupUsesSession : Bool      -- every lookup site takes the posting session into account\n  deriving Repr, DecidableEq\n")
+		"  lookupUsesSession : Bool      -- every lookup site and every function reading the map takes the posting session into account\n" +
+		"  insertBeforeSend : Bool       -- in the issuing function the insert precedes the statement that puts the request on the wire\n" +
+		"  readSites : List (List Nat)   -- every function of the table's file that reads the map\n  deriving Repr, DecidableEq\n")
 	b.WriteString("def pdTables : List PdTable := [\n")
 	for i, spec := range pdTableSpecs {
 		f := pdAnalyseTable(root, spec)
@@ -428,8 +495,8 @@ func genPending(root *pkgSrc) {
 			sep = ""
 		}
 		fmt.Fprintf(&b, "  -- %s: insert in %s, key %s\n", f.name, f.insertFunc, strings.ReplaceAll(f.insertKey, "\n", " "))
-		fmt.Fprintf(&b, "  ⟨%s, %s, %s, %s, %s, %s, %s, %s⟩%s\n", leanText(f.name), leanText(f.insertFunc), leanText(f.insertKey), leanText(f.insertKind),
-			leanBool(f.deferredDelete), pdTextList(f.lookupFuncs), pdTextList(f.lookupKinds), leanBool(f.usesSession), sep)
+		fmt.Fprintf(&b, "  ⟨%s, %s, %s, %s, %s, %s, %s, %s, %s, %s⟩%s\n", leanText(f.name), leanText(f.insertFunc), leanText(f.insertKey), leanText(f.insertKind),
+			leanBool(f.deferredDelete), pdTextList(f.lookupFuncs), pdTextList(f.lookupKinds), leanBool(f.usesSession), leanBool(f.insertFirst), pdTextList(f.readSites), sep)
 	}
 	b.WriteString("]\n")
 	b.WriteString("/-- a channel send inside a `select` that has a `default:` branch. -/\nstructure PdDrop where\n  file : List Nat\n  func : List Nat\n  chan : List Nat\n  deriving Repr, DecidableEq\n")
